@@ -112,24 +112,150 @@ def gen_blocks(rng, nmax):
             "init": [[s, str(p)] for s, p in zip(starts, ps)], "gamma": "1"}
 
 
+def gen_farms(rng):
+    """gain-class choice with exact (or near, or no) bias ties: 2-3 closed "farms" of different gain
+    (a self-loop, or a deterministic 2-cycle entered at its lowest-index state, whose bias is the
+    reference 0), an optional terminal state (gain 0), and 1-2 choice states whose actions enter
+    different farms for a one-off reward -- or stay put for a per-step reward.  With equal one-off
+    rewards the action values of the bias TIE EXACTLY across farms of different gain, so only the
+    gain criterion separates the optimal action from one that leads into a lower-gain class."""
+    nA = rng.randint(2, 3)
+    gains = rng.sample([F(x, 2) for x in range(-6, 9)], rng.randint(2, 3))
+    trans, reward, actions, entries = {}, {}, [], []
+    k = 0
+    for gval in gains:
+        a = rng.randrange(nA)
+        if rng.random() < .6:
+            actions.append([a])
+            trans["%d,%d" % (k, a)] = [[k, "1"]]
+            if gval != 0:
+                reward["%d,%d,%d" % (k, a, k)] = str(gval)
+            else:                      # a zero-reward certain self-loop would be an (implicit) terminal state
+                reward["%d,%d,%d" % (k, a, k)] = "1"
+            entries.append(k)
+            k += 1
+        else:
+            x = F(rng.randint(-8, 8), 2)
+            y = 2 * gval - x
+            b = rng.randrange(nA)
+            actions += [[a], [b]]
+            trans["%d,%d" % (k, a)] = [[k + 1, "1"]]
+            trans["%d,%d" % (k + 1, b)] = [[k, "1"]]
+            if x != 0:
+                reward["%d,%d,%d" % (k, a, k + 1)] = str(x)
+            if y != 0:
+                reward["%d,%d,%d" % (k + 1, b, k)] = str(y)
+            entries.append(k)
+            k += 2
+    absorbing = [False] * k
+    if rng.random() < .3:
+        a = rng.randrange(nA)
+        actions.append([a])
+        trans["%d,%d" % (k, a)] = [[k, "1"]]
+        absorbing.append(True)
+        entries.append(k)
+        k += 1
+    nchoice = rng.randint(1, 2)
+    choice = list(range(k, k + nchoice))
+    n = k + nchoice
+    absorbing += [False] * nchoice
+    mode = rng.choice(["exact", "exact", "exact", "near", "none"])
+    for s in choice:
+        acts = sorted(rng.sample(range(nA), rng.randint(2, nA)))
+        actions.append(acts)
+        c = F(rng.randint(-8, 12), 2)
+        for j, a in enumerate(acts):
+            if mode == "exact":
+                cj = c
+            elif mode == "near":
+                cj = c + rng.choice([F(0), F(1, 10**11), F(-1, 10**11), F(1, 10**9)])
+            else:
+                cj = F(rng.randint(-8, 12), 2)
+            u = rng.random()
+            if u < .2 and c != 0:
+                # stay: the choice state is its own class paying c per step (bias action value c when it is the policy)
+                trans["%d,%d" % (s, a)] = [[s, "1"]]
+                reward["%d,%d,%d" % (s, a, s)] = str(cj if cj != 0 else c)
+            elif u < .4 and len(entries) >= 2:
+                e1, e2 = rng.sample(entries, 2)
+                p = rng.choice([F(1, 2), F(1, 4), F(3, 8)])
+                trans["%d,%d" % (s, a)] = [[e1, str(p)], [e2, str(1 - p)]]
+                if cj != 0:
+                    reward["%d,%d,%d" % (s, a, e1)] = str(cj)
+                    reward["%d,%d,%d" % (s, a, e2)] = str(cj)
+            elif u < .5 and s != choice[0]:
+                trans["%d,%d" % (s, a)] = [[choice[0], "1"]]
+                if cj != 0:
+                    reward["%d,%d,%d" % (s, a, choice[0])] = str(cj)
+            else:
+                e = entries[(j + rng.randrange(len(entries))) % len(entries)] if rng.random() < .5 else rng.choice(entries)
+                trans["%d,%d" % (s, a)] = [[e, "1"]]
+                if cj != 0:
+                    reward["%d,%d,%d" % (s, a, e)] = str(cj)
+    ps = gen_mdp._split_prob(rng, len(choice))
+    init = [[s, str(p)] for s, p in zip(choice, ps)]
+    return {"n": n, "nA": nA, "actions": actions, "trans": trans, "reward": reward, "absorbing": absorbing,
+            "init": init, "gamma": "1"}
+
+
+def gen_components(rng):
+    """discounted MDPs made of many disconnected components (paying self-loops, 2-state components,
+    the odd terminal state), 5-8 states, all components initial: every policy has many closed classes,
+    so the rows of (gamma*P - I) are individually small (1-gamma) and their Gram determinant is tiny"""
+    n = rng.randint(5, 8)
+    nA = rng.randint(1, 2)
+    actions, trans, reward = [None] * n, {}, {}
+    absorbing = [False] * n
+    s = 0
+    while s < n:
+        size = 1 if (rng.random() < .65 or s == n - 1) else 2
+        comp = list(range(s, s + size))
+        for u in comp:
+            actions[u] = sorted(rng.sample(range(nA), rng.randint(1, nA)))
+            if size == 1 and rng.random() < .1:
+                absorbing[u] = True
+            for a in actions[u]:
+                if size == 1 or rng.random() < .3:
+                    row = [[u, F(1)]] if size == 1 else [[comp[0], F(1, 2)], [comp[1], F(1, 2)]]
+                else:
+                    p = rng.choice([F(1), F(1, 4), F(5, 8)])
+                    other = comp[1] if u == comp[0] else comp[0]
+                    row = [[other, p]] + ([[u, 1 - p]] if p != 1 else [])
+                trans["%d,%d" % (u, a)] = [[ns, str(p)] for ns, p in row]
+                for ns, p in row:
+                    r = F(rng.randint(-4, 4)) or F(1)
+                    reward["%d,%d,%d" % (u, a, ns)] = str(r)
+        s += size
+    starts = list(range(n))
+    ps = gen_mdp._split_prob(rng, n) if n <= 8 else None
+    return {"n": n, "nA": nA, "actions": actions, "trans": trans, "reward": reward, "absorbing": absorbing,
+            "init": [[u, str(p)] for u, p in zip(starts, ps)], "gamma": rng.choice(["9/10", "19/20"])}
+
+
 def gen_case(rng, tier):
     nmax = 6 if tier == "quick" else 8
     r = rng.random()
-    if r < .30:
+    if r < .24:
         kind = "discounted"
         m = gen_mdp.gen_mdp(rng, nmax=nmax, amax=3, gamma=rng.choice(["1/2", "9/10", "19/20"]))
-    elif r < .42:
+    elif r < .34:
+        kind = "discounted-components"        # many disconnected components / paying self-loops, 5-8 states
+        m = gen_components(rng)
+    elif r < .44:
         kind = "undisc-proper-nonpos"        # every policy reaches a terminal state
         m = gen_mdp.gen_mdp(rng, nmax=nmax, amax=3, gamma="1", proper=True)
-    elif r < .60:
+    elif r < .58:
         kind = "undisc-terminal-either-sign"  # terminal states exist but need not be reached
         m = _either_sign(rng, nmax=nmax, amax=3, min_states=2)
-    elif r < .80:
+    elif r < .72:
         kind = "undisc-recurrent"             # no explicit terminal states: unichain or multichain by chance
         m = _either_sign(rng, nmax=nmax, amax=3, min_states=2, goal=False)
-    else:
+    elif r < .85:
         kind = "undisc-blocks"                # multichain by construction
         m = gen_blocks(rng, nmax)
+    else:
+        kind = "undisc-farms"                 # gain-class choice with exact / near bias ties
+        m = gen_farms(rng)
     # msdm's result assembly raises StateActionIndexError when the initial distribution lists a
     # zero-probability state that reachability left out of the state list (reported separately;
     # a raise is not a "reports convergence" run): keep such entries out of the generated cases
@@ -333,8 +459,15 @@ def search_failing(case, res, d):
         bound = (2 * d["band"]) / (1 - gam) + slack
         for s in range(n):
             if abs(h[s] - Vs[s]) > bound:
-                return {"clause": "state value differs from the exact optimal discounted value",
-                        "state_index": s, "reported": str(float(h[s])), "optimal": str(Vs[s])}
+                why = {"clause": "state value differs from the exact optimal discounted value",
+                       "state_index": s, "reported": str(float(h[s])), "optimal": str(Vs[s])}
+                if max(abs(x) for x in g) > F(1, 10**6) * d["scale"]:
+                    # a discounted evaluation system forces gain 0: a clearly non-zero reported gain means
+                    # equations (gamma*P - I) g = 0 were dropped by independent_row_indices (np.isclose(det, 0)
+                    # is scale dependent: the Gram determinant of several small rows falls below 1e-8)
+                    why["signature"] = "C16:discounted:independent-rows-test-drops-equations"
+                    why["reported_gain"] = [str(float(x)) for x in g]
+                return why
         for s in range(n):
             qs = [Ra[s][a] + gam * ex(Pa, Vs, s, a) for a in range(nA)]
             best = max(qs[a] for a in range(nA) if av[s][a])
@@ -385,7 +518,8 @@ def run(ctx):
              "undisc_nonconstant_gain": 0, "undisc_M_positive": 0, "undisc_nonzero_gain": 0,
              "undisc_with_terminal": 0, "undisc_pos_and_neg_rewards": 0, "stochastic_policy_rows": 0,
              "not_converged_by_kind": {}, "lp_agrees": 0, "lp_compared": 0,
-             "undisc_support_tight_for_reported_bias": 0, "absorbing_vec_differs_from_model": 0}
+             "undisc_support_tight_for_reported_bias": 0, "absorbing_vec_differs_from_model": 0,
+             "undisc_bias_tie_with_lower_gain_action": 0}
     distinct, prepared = set(), {}
     for i, (case, res) in enumerate(zip(cases, impl)):
         stats["kinds"][case["kind"]] = stats["kinds"].get(case["kind"], 0) + 1
@@ -450,6 +584,21 @@ def run(ctx):
                 stats["lp_compared"] += 1
                 stats["lp_agrees"] += int(all(abs(fr(x) - y) <= F(1, 10**6) * d["scale"] for x, y in zip(lp["g"], d["g"])))
         stats["stochastic_policy_rows"] += int(any(sum(1 for x in row if x > 0) > 1 for row in d["pi"]))
+        if undisc:
+            # an available action OUTSIDE the support ties (1e-10) with the best reported action bias but has
+            # a clearly lower action gain: only the gain filter of the result assembly keeps it out
+            tie = False
+            for si in range(d["n"]):
+                if d["absorbing"][si]:
+                    continue
+                qh = [fr(x) for x in out["Qh"][si]]
+                qg = [fr(x) for x in out["Qg"][si]]
+                av_a = [a for a in range(d["nA"]) if d["av"][si][a] and qh[a] is not None and qg[a] is not None]
+                if not av_a:
+                    continue
+                bh, bg = max(qh[a] for a in av_a), max(qg[a] for a in av_a)
+                tie = tie or any(d["pi"][si][a] == 0 and abs(qh[a] - bh) <= F(1, 10**10) and qg[a] < bg - F(1, 10**6) for a in av_a)
+            stats["undisc_bias_tie_with_lower_gain_action"] += int(tie)
         # drift counter: the model's absorbing set (computed from the arrays) vs msdm's absorbing_state_vec
         stats["absorbing_vec_differs_from_model"] += int(list(res.get("absorbing_vec", [])) != list(d["absorbing"]))
         if failed:
@@ -460,7 +609,7 @@ def run(ctx):
                       "M": str(d.get("M"))}
             if why:
                 detail["failing_clause"] = why
-                ctx.violation("C16:%s" % why["clause"], detail, found=True)
+                ctx.violation(why.get("signature", "C16:%s" % why["clause"]), detail, found=True)
             else:
                 detail["correspondence"] = "model/Multichain.v checker (theorems props/C16.v) rejects the implementation's output"
                 ctx.violation("C16:certificate-rejects:%s:%s" % ("undiscounted" if undisc else "discounted", "+".join(failed)),
@@ -470,10 +619,12 @@ def run(ctx):
         "evaluations": nchk,
         "distinct_nontrivial": len(distinct),
         "rule": "MDPs without dead ends, 1..%d states, 1..3 actions, state-dependent action sets, k/8 probabilities, zero entries, "
-                "duplicate rows (exact ties), explicit/implicit terminal states, multi-state initial distributions; 30%% discounted "
-                "(gamma in {1/2,9/10,19/20}, rewards of either sign), 70%% undiscounted: proper non-positive (gen_mdp), terminal states with "
+                "duplicate rows (exact ties), explicit/implicit terminal states, multi-state initial distributions; 34%% discounted "
+                "(gamma in {1/2,9/10,19/20}, rewards of either sign), 66%% undiscounted: proper non-positive (gen_mdp), terminal states with "
                 "rewards of either sign, no terminal states (recurrent, unichain/multichain by chance), and block-structured multichain "
-                "(2-3 closed classes + transient states + optional terminal state); MultichainPolicyIteration(max_iterations in {200,500,1000}); "
+                "(2-3 closed classes + transient states + optional terminal state), gain-class-choice 'farms' (closed classes of different gain entered for "
+                "equal / nearly equal / unrelated one-off rewards: exact bias ties across classes of different gain); discounted 'components' "
+                "(5-8 states in many disconnected components, paying self-loops, gamma in {9/10,19/20}); MultichainPolicyIteration(max_iterations in {200,500,1000}); "
                 "only converged=True runs are judged; distinct = structural hash of the MDP; non-trivial = at least one non-terminal state" % nmax,
         "samples": [{"case": cases[meta[0]], "impl": impl[meta[0]]}] if meta else [],
         "cases": len(cases), "certificate_checks": nchk, **stats,
